@@ -65,8 +65,14 @@ macro_rules! cmp_arm {
 }
 
 #[macro_export]
+macro_rules! bessel_arm {
+    (bes, $x:expr, $f:ident) => { Out::Val(num_dual::BesselDual::$f($x.clone())) };
+    (nobes, $x:expr, $f:ident) => { Out::Unsupported };
+}
+
+#[macro_export]
 macro_rules! impl_calc {
-    ($key:expr, $T:ty, $F:ty, $mant:expr, $ord:ident) => {
+    ($key:expr, $T:ty, $F:ty, $mant:expr, $ord:ident, $bes:ident) => {
         impl Calc for $T {
             const KEY: &'static str = $key;
             const MANT: u32 = $mant;
@@ -149,6 +155,9 @@ macro_rules! impl_calc {
                     ("sph_j0", _) => Out::Val(<D as DualNum<$F>>::sph_j0(a)),
                     ("sph_j1", _) => Out::Val(<D as DualNum<$F>>::sph_j1(a)),
                     ("sph_j2", _) => Out::Val(<D as DualNum<$F>>::sph_j2(a)),
+                    ("bessel_j0", _) => $crate::bessel_arm!($bes, a, bessel_j0),
+                    ("bessel_j1", _) => $crate::bessel_arm!($bes, a, bessel_j1),
+                    ("bessel_j2", _) => $crate::bessel_arm!($bes, a, bessel_j2),
                     ("powi", _) => Out::Val(<D as DualNum<$F>>::powi(a, n)),
                     ("powf", _) => Out::Val(<D as DualNum<$F>>::powf(a, s)),
                     ("powd", _) => Out::Val(<D as DualNum<$F>>::powd(a, b.clone())),
